@@ -309,13 +309,13 @@ class UGridModel(Model):
         sup = e['supplied']
         if 'edge_node' in sup:
             rows = [list(p) if not flip else [p[1], p[0]] for p, flip in zip(self.s_edges, e['edge_flip'])]
-            data_vars['edge_nodes'] = self._connectivity('edge nodes', rows, 2, (ed, 'Two'), 'edge_node')
+            data_vars['edge_nodes'] = self._connectivity('edge nodes', rows, 2, (ed, e.get('two_dim', 'Two')), 'edge_node')
             mesh_attrs['edge_node_connectivity'] = 'edge_nodes'
         if 'face_edge' in sup:
             data_vars['face_edges'] = self._connectivity('face edges', self.s_face_edges, mesh.max_nodes, (fd, mx), 'face_edge')
             mesh_attrs['face_edge_connectivity'] = 'face_edges'
         if 'edge_face' in sup:
-            data_vars['edge_faces'] = self._connectivity('edge faces', self.s_edge_faces, 2, (ed, 'Two'), 'edge_face')
+            data_vars['edge_faces'] = self._connectivity('edge faces', self.s_edge_faces, 2, (ed, e.get('two_dim', 'Two')), 'edge_face')
             mesh_attrs['edge_face_connectivity'] = 'edge_faces'
         if 'face_face' in sup:
             data_vars['face_faces'] = self._connectivity('face faces', self.s_face_faces, mesh.max_nodes, (fd, mx), 'face_face')
@@ -409,6 +409,8 @@ def make_ugrid(rng, *, mesh=None, winding=None, supplied=None, start_index=None,
         node_dim=names[0], face_dim=names[1], edge_dim=names[2], max_dim=names[3],
         declare_face_dim=bool(force_face_dim or chance(rng, 0.5)), winding=winding,
         edge_flip=[bool(chance(rng, 0.5)) for _ in range(mesh.nedge)],
+        # UGRID does not name the dimension of length two of the edge tables: 'Two' is only customary
+        two_dim=pick(rng, ['Two', 'Two', 'Two', 'two', 'nv2', 'n_bnd']),
     )
     m.kinds = {'face': Kind('face', (names[1],), (mesh.nface,)), 'node': Kind('node', (names[0],), (mesh.nnode,))}
     if has_edges:
